@@ -931,9 +931,17 @@ def configs(tier, rng):
                          mask=make_mask(shape, rng), iters=2, kwargs={"user_option": 3}),
                     dict(matrix=M, kind=kind, method=rng.choice(["truncated_svd", "callable"]), n=None, flip=True, ub=True, nn=None,
                          mask=make_mask(shape, rng), iters=2, kwargs={}),
-                    dict(matrix=np.abs(M), kind=kind + "+abs", method="truncated_svd", n=nm, flip=True, ub=True, nn=rng.choice(["nndsvda", "nndsvda", "nndsvd"]),
+                    # a rank strictly between 1 and min(shape) where possible: the imputed matrix then differs from the input, and a
+                    # signed matrix gives NNDSVD columns with zero entries, so NNDSVDA's fill value (mean of the LAST imputed matrix) shows
+                    dict(matrix=M, kind=kind, method="truncated_svd", n=(rng.randint(2, min(shape) - 1) if min(shape) >= 3 else nm),
+                         flip=True, ub=True, nn=("nndsvda" if min(shape) >= 3 else rng.choice(["nndsvda", "nndsvd"])),
                          mask=make_mask(shape, rng), iters=rng.choice([1, 2]), kwargs={})]
-                for c_ in (rng.sample(extra, 2) if tier == "quick" else extra):     # quick: two of the four per matrix
+                if tier == "quick":      # quick: two of the four per matrix; mask + NNDSVDA always where it is sensitive (min(shape) >= 3)
+                    pick_ = rng.sample(extra, 2)
+                    if min(shape) >= 3 and extra[3] not in pick_:
+                        pick_.append(extra[3])
+                    extra = pick_
+                for c_ in extra:
                     yield c_
                 # masks (n_eigenvecs must be given) and the non-negative option on a few requests per matrix
                 for n in sorted(set([1, min(shape), mx])):
@@ -1151,7 +1159,9 @@ def run(chk):
                        "non-trivial = matrix with more than one entry; distinct key = (method, shape, kind, n_eigenvecs, flip options, non_negative, masked)")
     chk.assumptions = ["np.linalg.svd / eigh meet their contract (orthonormal factors, sorted non-negative S, U S V = M); measured on this run by the residual predicates",
                        "floating-point rounding is not modelled; exact comparison is used only where the code performs slicing and multiplications by +-1",
-                       "randomized_svd is required to be exact only when n_eigenvecs + n_oversamples covers the numerical rank"]
+                       "randomized_svd is required to be exact only when n_eigenvecs + n_oversamples covers the numerical rank",
+                       "np.linalg.qr meets the reduced-QR contract qr_ok and the range finder's Q covers the range when the rank is covered (hypotheses of "
+                       "C05_range_finder_covers / C05_randomized_svd_*_partial); measured on every direct randomized_svd run (C05_qr_contract, C05_range_cover)"]
     chk.trusted += ["oracles: numpy.linalg.svd / eigh answers are taped (Backend.register_method) and handed to the model as data; "
                     "symeig_svd / randomized_svd / callable answers inside svd_interface are taped at the dispatched function",
                     "randomized_svd called directly: the Gaussian test matrix (a recording RandomState), every tl.qr and tl.svd answer are taped",
@@ -1280,6 +1290,27 @@ def direct_cases(chk, tier, rng):
         if out[0] != "ok" or not finite3(out[1]) or len(drawn) != 1 or not qrs or not svds:
             chk.finding("tensorly.tenalg.svd.randomized_svd", meta_, f"randomized_svd failed / did not use the given random_state, tl.qr, tl.svd as documented: {out[0]} {str(out[1])[:100]} draws={len(drawn)} qr={len(qrs)} svd={len(svds)}", "C05_randomized_returns")
             continue
+        # the hypotheses of C05_range_finder_covers / C05_randomized_svd_*_partial, measured on this run: every tl.qr answer meets
+        # the reduced-QR contract qr_ok (shape, orthonormal columns, X = Q (Q^T X)), and - when n_eigenvecs + n_oversamples
+        # covers the numerical rank - the range finder's Q covers the range of the matrix it was run on
+        for (Xq, Qq) in qrs:
+            mq, wq = Xq.shape
+            sc = max(1.0, float(np.max(np.abs(Xq), initial=0.0)))
+            if Qq.shape != (mq, min(mq, wq)) or np.max(np.abs(Qq.T @ Qq - np.eye(Qq.shape[1])), initial=0.0) > 1e-9 \
+                    or np.max(np.abs(Xq - Qq @ (Qq.T @ Xq)), initial=0.0) > 1e-9 * sc:
+                chk.finding("tensorly.tenalg.svd.randomized_svd", meta_, "a tl.qr answer does not meet the reduced-QR contract (shape / orthonormal columns / X = Q Q^T X)", "C05_qr_contract")
+                break
+        mx_, mn_ = max(d1, d2), min(d1, d2)
+        k_ = mx_ if n is None else min(n, mx_)
+        nd_ = min(k_ + n_over, mx_)
+        transposed_ = (d1 > d2 and k_ > min(mn_, nd_)) or (d1 < d2 and k_ < min(mn_, nd_))
+        A_ = M.T if transposed_ else M
+        Qf = qrs[-1][1]
+        if Qf.shape[0] == A_.shape[0] and nd_ >= num_rank(np.linalg.svd(M, compute_uv=False)):
+            if np.max(np.abs(A_ - Qf @ (Qf.T @ A_)), initial=0.0) > 1e-8 * max(1.0, float(np.max(np.abs(M), initial=0.0))):
+                chk.finding("tensorly.tenalg.svd.randomized_svd", meta_, "the range finder's Q does not cover the range although n_eigenvecs + n_oversamples >= rank", "C05_range_cover")
+        elif Qf.shape[0] != A_.shape[0]:
+            chk.finding("tensorly.tenalg.svd.randomized_svd", meta_, "the last tl.qr call was not made on the (possibly transposed) matrix sketch the model expects", "C05_range_cover")
         try:
             sv_ents = []
             for (m, full, ans) in svds:
@@ -1293,7 +1324,88 @@ def direct_cases(chk, tier, rng):
             continue
         dcases.append(lit)
         dmeta.append(meta_)
+    complex_cases(chk, tier, rng, svdmod)
     return dcases, dmeta
+
+
+def complex_cases(chk, tier, rng, svdmod):
+    """complex input (svd_flip as of ca31a67, symeig_svd as of d995974).  Predicates only (tests): the executable model's scalars are
+    real (the complex-aware model Model/SvdConj.v equals it for real scalars, C05_flip_conj_real); the statements tested are
+    C05_conj_flip_product_u / _v and C05_conj_flip_deciding (any commutative ring with conjugation)."""
+    def cv():
+        return complex(rng.randint(-8, 8) / 4.0, rng.randint(-8, 8) / 4.0)
+    for _ in range(60 if tier == "quick" else 400):
+        a, c, r, b = rng.randint(1, 4), rng.randint(1, 4), rng.randint(1, 4), rng.randint(1, 4)
+        if rng.random() < 0.5:
+            r = c
+        U = np.array([[cv() for _ in range(c)] for _ in range(a)]); V = np.array([[cv() for _ in range(b)] for _ in range(r)])
+        if rng.random() < 0.2:
+            U[:, rng.randrange(c)] = 0.0
+        ub = rng.random() < 0.5
+        out = C.call_impl(lambda: svdmod.svd_flip(U.copy(), V.copy(), u_based_decision=ub))
+        chk.count(key=("svd_flip_complex", U.shape, V.shape, ub, U.tobytes(), V.tobytes()), nontrivial=True)
+        chk.hist("method", "svd_flip(complex)")
+        inp = {"U": [[str(z) for z in row] for row in U], "V": [[str(z) for z in row] for row in V], "u_based_decision": ub}
+        if out[0] != "ok":
+            chk.finding("tensorly.tenalg.svd.svd_flip", inp, f"svd_flip raised on complex input: {out[1]}", "C05_flip_returns")
+            continue
+        U2, V2 = np.asarray(out[1][0]), np.asarray(out[1][1])
+        msg = None
+        if U2.shape != U.shape or V2.shape != V.shape:
+            msg = "svd_flip changes shapes (complex input)"
+        elif not np.allclose(np.abs(U2), np.abs(U) * (np.abs(U2) > 0), atol=1e-12) or not np.allclose(np.abs(V2), np.abs(V) * (np.abs(V2) > 0), atol=1e-12):
+            msg = "svd_flip changes magnitudes (complex input)"
+        else:
+            dec = [U2[np.argmax(np.abs(U[:, j])), j] for j in range(c)] if ub else [V2[i, np.argmax(np.abs(V[i, :]))] for i in range(r)]
+            if any(abs(z.imag) > 1e-12 or z.real < -1e-12 for z in dec):
+                msg = "a deciding entry is not real non-negative after svd_flip (complex input)"
+            q = min(c, r)
+            nz = all(np.any(U[:, j] != 0) for j in range(q)) if ub else all(np.any(V[i, :] != 0) for i in range(q))
+            P0 = U[:, :q] @ V[:q, :]
+            if msg is None and nz and np.max(np.abs(U2[:, :q] @ V2[:q, :] - P0), initial=0.0) > 1e-12 * max(1.0, float(np.max(np.abs(P0), initial=0.0))):
+                msg = "svd_flip changes the product U V (complex input)"
+        if msg:
+            chk.finding("tensorly.tenalg.svd.svd_flip", inp, msg, "C05_flip_complex")
+    # svd_interface on well-conditioned complex matrices: Hermitian orthonormality, true singular values, error identity, sign convention
+    n_if, tries = (24 if tier == "quick" else 160), 0
+    while n_if > 0 and tries < 5000:
+        tries += 1
+        d1, d2 = rng.randint(1, 5), rng.randint(1, 5)
+        M = np.array([[cv() for _ in range(d2)] for _ in range(d1)])
+        sig = np.linalg.svd(M, compute_uv=False)
+        if sig.max() == 0 or sig.min() < 0.2 * sig.max() or (len(sig) > 1 and np.min(sig[:-1] - sig[1:]) < 0.05 * sig.max()):
+            continue
+        n_if -= 1
+        method = rng.choice(["truncated_svd", "symeig_svd", "randomized_svd"])
+        n = rng.randint(1, min(d1, d2))
+        ub = rng.random() < 0.5
+        kw = {"random_state": rng.randrange(10 ** 6)} if method == "randomized_svd" else {}
+        out = C.call_impl(lambda: svdmod.svd_interface(M.copy(), method=method, n_eigenvecs=n, flip_sign=True, u_based_flip_sign=ub, **kw))
+        chk.count(key=("svd_interface_complex", method, M.shape, n, ub, M.tobytes()), nontrivial=M.size > 1)
+        chk.hist("method", method + "(complex)")
+        inp = {"matrix": [[str(z) for z in row] for row in M], "method": method, "n_eigenvecs": n, "flip_sign": True, "u_based_flip_sign": ub, "kwargs": kw}
+        if out[0] != "ok":
+            chk.finding(EP, inp, f"svd_interface raised on a well-conditioned complex matrix: {str(out[1])[:120]}", "C05_complex_returns")
+            continue
+        U, S, V = (np.asarray(x) for x in out[1])
+        tol = 1e-6 if method == "symeig_svd" else 1e-9
+        msg = None
+        if U.shape != (d1, n) or S.shape != (n,) or V.shape != (n, d2):
+            msg = f"shapes {U.shape},{S.shape},{V.shape}"
+        elif not finite3((np.abs(U), np.abs(S), np.abs(V))):
+            msg = "non-finite entries"
+        elif np.max(np.abs(U.conj().T @ U - np.eye(n))) > tol or np.max(np.abs(V @ V.conj().T - np.eye(n))) > tol:
+            msg = "factors are not orthonormal (Hermitian inner product)"
+        elif np.max(np.abs(np.real(S) - sig[:n])) > tol * sig.max() or np.max(np.abs(np.imag(S))) > 0:
+            msg = "S differs from the leading singular values"
+        elif abs(float(np.sum(np.abs(M - (U * S) @ V) ** 2)) - float(np.sum(sig[n:] ** 2))) > tol * float(np.sum(sig ** 2)):
+            msg = "error identity fails"
+        else:
+            dec = [U[np.argmax(np.abs(U[:, j])), j] for j in range(n)] if ub else [V[i, np.argmax(np.abs(V[i, :]))] for i in range(n)]
+            if any(abs(z.imag) > 1e-9 or z.real < 0 for z in dec):
+                msg = "a deciding entry is not real positive"
+        if msg:
+            chk.finding(EP, inp, msg + " (complex input)", "C05_complex")
 
 
 # ----------------------------------------------------------------------------- replay
